@@ -62,6 +62,9 @@ ASSUMPTIONS = [
 ]
 BUDGET_S = {"quick": 60, "thorough": 780}
 
+# resource exhaustion inside the harness process is a harness error, never a refusal and never a violation
+HARNESS_EXC = (MemoryError, RecursionError)
+
 MAX_BYTES = 2 ** 20
 MAX_ARRAY = 2 ** 14
 FLT_MAX = 3.4028234663852886e+38
@@ -460,7 +463,7 @@ def shape(n, si, depth=0):
 
 
 # ----------------------------------------------------------------------------- oracles
-def check_values(ctx, values, specs_for_msg=None):
+def check_values(ctx, values):
     """the round-trip oracle for a list of in-domain values encoded back to back.
     returns "ok" / "refused" (allowed refusal) / "violation" (only when the signature is excused)"""
     encs = []
@@ -470,6 +473,8 @@ def check_values(ctx, values, specs_for_msg=None):
         exp = norm(v, info)
         try:
             e = encode(v)
+        except HARNESS_EXC:
+            raise
         except Exception as ex:  # noqa
             if info.overflow:
                 ctx.label("refused-float-beyond-float32")
@@ -486,6 +491,8 @@ def check_values(ctx, values, specs_for_msg=None):
         if isinstance(v, Serializable):
             try:
                 e2 = v.dumpb()
+            except HARNESS_EXC:
+                raise
             except Exception as ex:  # noqa
                 ctx.violation("dumpb-differs", "serialize_value encoded the object but dumpb raised %s: %s" % (
                     type(ex).__name__, str(ex)[:200]))
@@ -501,6 +508,8 @@ def check_values(ctx, values, specs_for_msg=None):
         pos0 = stream.tell()
         try:
             d = deserialize_value(stream)
+        except HARNESS_EXC:
+            raise
         except Exception as ex:  # noqa
             ctx.violation("decode-raised", "decoding value #%d of %d (own encoding, %d bytes at offset %d) raised %s: %s" % (
                 idx, len(encs), len(e), pos0, type(ex).__name__, str(ex)[:200]))
@@ -528,6 +537,8 @@ def check_values(ctx, values, specs_for_msg=None):
             s2 = io.BytesIO(e + b"\x00\x0f")
             d2 = Serializable.loadb(s2)
             pos = s2.tell()
+        except HARNESS_EXC:
+            raise
         except Exception as ex:  # noqa
             ctx.violation("loadb-differs", "loadb raised %s: %s on an encoding deserialize_value accepts" % (
                 type(ex).__name__, str(ex)[:200]))
@@ -554,12 +565,16 @@ def check_one(ctx, spec, expect, base=None):
     try:
         e = encode(v)
         raised = None
+    except HARNESS_EXC:
+        raise
     except Exception as ex:  # noqa
         raised = ex
     if isinstance(v, Serializable):
         try:
             v.dumpb()
             raised_b = None
+        except HARNESS_EXC:
+            raise
         except Exception as ex:  # noqa
             raised_b = ex
         if (raised is None) != (raised_b is None):
@@ -582,6 +597,8 @@ def check_one(ctx, spec, expect, base=None):
             s = io.BytesIO(e)
             d = deserialize_value(s)
             used = s.tell()
+        except HARNESS_EXC:
+            raise
         except Exception as ex:  # noqa
             ctx.violation("ood-misencoded", "subclass instance was encoded but decoding raised %s: %s" % (type(ex).__name__, str(ex)[:200]))
             return "violation"
@@ -607,7 +624,7 @@ def wrap(spec, path, hashable):
         elif w == "list3":
             spec, hashable = {"l": [0, spec, "z"]}, False
         elif w == "tuple":
-            spec = {"t": [spec]}
+            spec, hashable = {"t": [spec]}, False   # tuple keys / members are outside the supported grammar
         elif w == "dictval":
             spec, hashable = {"d": [["k", spec]]}, False
         elif w == "dictkey":
@@ -615,11 +632,11 @@ def wrap(spec, path, hashable):
         elif w == "set":
             spec, hashable = {"s": [spec]}, False
         elif w == "objfield":
-            spec = {"o": "VpC13NoAnno", "v": {"v1": spec}}
+            spec, hashable = {"o": "VpC13NoAnno", "v": {"v1": spec}}, False
         elif w == "widefield":
-            spec = {"o": "VpC13Wide", "v": {"a": 1, "h": spec, "n": "tail"}}
+            spec, hashable = {"o": "VpC13Wide", "v": {"a": 1, "h": spec, "n": "tail"}}, False
         elif w == "treechild":
-            spec = {"o": "VpC13Tree", "v": {"children": {"l": [spec]}}}
+            spec, hashable = {"o": "VpC13Tree", "v": {"children": {"l": [spec]}}}, False
         else:
             raise ValueError(w)
     return spec
@@ -982,7 +999,7 @@ def run_rt(spec, ctx):
         if ctx.out_of_time():
             return
         ctx.case({"part": "rt", "values": specs})
-        if rt_body(ctx, specs, part) and len(repr(specs)) < 1500:
+        if rt_body(ctx, specs, part) and len(ctx.samples) < ctx.MAX_SAMPLES and len(repr(specs)) < 1500:
             ctx.sample({"part": "rt", "values": specs})
 
     test()
